@@ -188,4 +188,12 @@ def rule_b(ctx):
             else 'a keepalive task is not started with the connection (%s)' % sorted(started))
 
 
-RULES = [('C15.a', rule_a), ('C15.b', rule_b)]
+def rule_dispatch(ctx):
+    """KEEPALIVE frames of the connection reach handle_keep_alive (the method C15.a decides)."""
+    from . import dispatch
+    dispatch.rule_rows(ctx, 'C01.e', ['KeepAliveFrame'])
+    dispatch.rule_lookup(ctx, 'C01.e')
+    dispatch.rule_routing(ctx, 'C01.e', only=['KeepAliveFrame'])
+
+
+RULES = [('C15.a', rule_a), ('C15.b', rule_b), ('C01.e', rule_dispatch)]
